@@ -8,6 +8,8 @@ open EnvM Driver.EnvCommon
 def processLine (line : String) : String :=
   processWith (fun i tr =>
     let ok := specC10 i.hooks i.reqs tr
-    (ok, if !ok && !noFailedTeardown i.reqs then "end_stamp_rewritten_after_failed_teardown" else "-")) line
+    (ok, if ok then "-"
+         else if specC10Relaxed i.hooks i.reqs tr then "run_end_missing_after_forced_error"
+         else if !noFailedTeardown i.reqs then "end_stamp_rewritten_after_failed_teardown" else "-")) line
 
 end Driver.C10
